@@ -20,7 +20,7 @@ def selftest(tier):
 
 def obligations(tier, seed):
     import random
-    t = 450 if tier == 'quick' else 2400
+    t = 450 if tier == 'quick' else 1200
     rnd = random.Random(seed)
     n = len(skeletons.TEMPLATES)
     k2s = list(range(n))
@@ -28,7 +28,7 @@ def obligations(tier, seed):
     k2s = k2s[:6] if tier == 'quick' else k2s
     hist = []
     for i, k2 in enumerate(k2s):
-        k1s = [i % 3] if tier == 'quick' else range(3)
+        k1s = [i % 3]
         for k1 in k1s:
             hist.append(['k1 == %d' % k1, 'k2 == %d' % k2, 'len(A) == 3 and len(P) == 3',
                          '"." not in A', 'rg == %s' % (i % 2 == 0)])
@@ -40,7 +40,7 @@ def obligations(tier, seed):
     classy = [k for k in range(n) if 'class ' in skeletons.TEMPLATES[k][1] and k not in setty]
     chosen = (setty + classy[(seed % 2)::2] + [k for k in k2s if k not in setty and k not in classy][:1]) if tier == 'quick' else list(range(n))
     for i, k in enumerate(chosen):
-        for rg in ((bool((i + seed) % 2),) if tier == 'quick' and 'global ' not in skeletons.TEMPLATES[k][1] else (True, False)):
+        for rg in ((bool((i + seed) % 2),) if 'global ' not in skeletons.TEMPLATES[k][1] else (True, False)):
             order.append(['k == %d' % k, 'len(A) == 3 and len(B) == 3 and len(C) == 3', '"." not in A and "." not in B and "." not in C', 'rg == %s' % rg]
                          + (["C == 'ccc'"] if tier == 'quick' else []))
     return [
